@@ -393,41 +393,62 @@ def _trailer(chk, repo, L):
     rest = [r for r in reads[1:] if not r.args and not r.keywords]
     chk.require(bool(rest), "C05-F5", where, "image data is the rest of the file (f.read()) after the header",
                 "no read of the remaining bytes after the header", key="trailer:rest")
-    # ranges are the running sum of the declared record lengths
-    acc_ok = False
-    acc_call = None
-    for c in calls_in(fi):
-        r = repo.resolve_expr(fi, c.func)
-        if r.kind == "external" and r.fq.endswith("accumulate"):
-            acc_call = c
-            init = [kw for kw in c.keywords if kw.arg == "initial"]
-            src = flow.expand(c.args[0]) if c.args else None
-            txt = norm(src) if src is not None else ""
-            acc_ok = (
-                bool(init) and isinstance(init[0].value, ast.Constant) and init[0].value.value == 0
-                and "record_length" in txt and "low_resolution_image_sizes" in txt
-                and len(c.args) == 1
-            )
-    chk.require(acc_ok, "C05-F5", where,
-                "image offsets = accumulate(record_length of each low_resolution_image_sizes entry, initial=0)",
-                f"image offsets are not the running sum of the declared lengths: {short(acc_call) if acc_call else 'no accumulate'}",
-                key="trailer:accumulate", sample={"call": short(acc_call) if acc_call else None})
-    # ranges pair offset i with offset i+1
-    zip_ok = False
-    for c in calls_in(fi):
-        if isinstance(c.func, ast.Name) and c.func.id == "zip" and len(c.args) == 2:
-            a, b = c.args
-            if (
-                isinstance(a, ast.Name) and isinstance(b, ast.Subscript) and isinstance(b.value, ast.Name)
-                and b.value.id == a.id and isinstance(b.slice, ast.Slice)
-                and isinstance(b.slice.lower, ast.Constant) and b.slice.lower.value == 1
-                and b.slice.upper is None and b.slice.step is None
-            ):
-                d = flow.expand(a)
-                if acc_call is not None and norm(flow.expand(acc_call)) in norm(d):
-                    zip_ok = True
-    chk.require(zip_ok, "C05-F5", where, "image i occupies [offset_i, offset_{i+1})",
-                "image byte ranges are not consecutive pairs of the running sum", key="trailer:zip")
+    # ranges are the running sum of the declared record lengths: read_sar_trailer is evaluated by the shape interpreter on
+    # model trailers (0, 1, 3 and 7 images with distinct lengths) with a recording file object and a recording
+    # parse_image_data - image i must be handed exactly data[sum(len[:i]) : sum(len[:i+1])] with its own shape and sample size
+    trailer_model(chk, repo, mod, fi, where)
+
+
+def trailer_model(chk, repo, mod, fi, where):
+    from collections import OrderedDict
+    from ..shapes import Const, DictS, Fn, Interp, ListLit, Obj, ShapeError, TupS, _Raise
+    from ..repeval import from_shape, Undecided
+    for lengths in ([], [5], [7, 3, 11], [2, 9, 4, 6, 1, 8, 3]):
+        n = len(lengths)
+        sizes = [OrderedDict(record_length=l, number_of_pixels=10 + i, number_of_lines=20 + i, number_of_bytes_per_one_sample=(1, 2, 4)[i % 3]) for i, l in enumerate(lengths)]
+        data = bytes(range(65, 65 + sum(lengths)))
+        reads, parsed = [], []
+
+        def read_impl(I_, args, kwargs):
+            size = args[0].v if args and isinstance(args[0], Const) else (None if not args else "?")
+            reads.append(size)
+            return Const(b"H" * 720) if len(reads) == 1 else Const(data)
+
+        def parse_impl(I_, args, kwargs):
+            return Obj("Container", OrderedDict(low_resolution_image_sizes=ListLit([DictS(OrderedDict((k, Const(v)) for k, v in sz.items())) for sz in sizes]),
+                                                number_of_low_resolution_images=Const(n)))
+
+        def image_impl(I_, args, kwargs):
+            names = ["data", "shape", "n_bytes"]
+            got = dict(zip(names, args))
+            got.update(kwargs)
+            parsed.append(got)
+            return TupS([Const("image"), Const(len(parsed) - 1)])
+        I = Interp(repo)
+        sc = I.module_scope(mod)
+        sc.vars["file_descriptor_record"] = Obj("Struct", OrderedDict(parse=Fn("py", impl=parse_impl, name="parse")))
+        sc.vars["parse_image_data"] = Fn("py", impl=image_impl, name="parse_image_data")
+        f = Obj("File", OrderedDict(read=Fn("py", impl=read_impl, name="read")))
+        try:
+            out = I.call(I.lookup("read_sar_trailer", sc), [f], {})
+            plain = [{k: from_shape(v) for k, v in p.items()} for p in parsed]
+        except (ShapeError, _Raise, Undecided, RecursionError) as e:
+            raise AnalysisError(f"{where}: cannot be evaluated on a model trailer with {n} image(s) ({str(e)[:120]}); the byte ranges of the images are not decided")
+        offs = [sum(lengths[:i]) for i in range(n + 1)]
+        want = [{"data": data[offs[i]:offs[i + 1]], "shape": (10 + i, 20 + i), "n_bytes": (1, 2, 4)[i % 3]} for i in range(n)]
+        norm_ = lambda ps: [{"data": p.get("data"), "shape": tuple(p["shape"]) if isinstance(p.get("shape"), (list, tuple)) else p.get("shape"), "n_bytes": p.get("n_bytes")} for p in ps]
+        got = norm_(plain)
+        detail = ""
+        if got != want:
+            j = next((i for i in range(min(len(got), len(want))) if got[i] != want[i]), min(len(got), len(want)))
+            detail = (f"image {j} of {n} (declared lengths {lengths}) is decoded from {got[j]['data']!r} with shape {got[j]['shape']} / {got[j]['n_bytes']} byte(s) per sample, its own bytes are {want[j]['data']!r} "
+                      f"with shape {want[j]['shape']} / {want[j]['n_bytes']}" if j < len(got) and j < len(want) else f"{len(got)} image(s) decoded, the descriptor declares {n}")
+        chk.require(got == want, "C05-F5", where, f"{n} image(s) of lengths {lengths}: image i is decoded from [sum(len[:i]), sum(len[:i+1])) of the data block with its own shape and sample size",
+                    f"low-resolution images are not cut at the running sum of the declared lengths: {detail}", key=f"trailer:ranges:{n}", sample={"lengths": lengths, "images": n})
+        second = out.elts[1] if isinstance(out, TupS) and len(out.elts) == 2 else None
+        order_ok = isinstance(second, ListLit) and [from_shape(x) for x in second.elts] == [("image", i) for i in range(n)]
+        chk.require(order_ok, "C05-F5", where, f"{n} decoded image(s) are returned in the order of their size records",
+                    f"the returned images are {second!r:.120}: not one per size record in order", key=f"trailer:order:{n}")
 
 
 def _enumerate(chk, L):
